@@ -81,6 +81,7 @@ def doc_masks(n, z, amp, nphases):
 
 
 def unit_masks(n, z, nphases):
+    """the cosTurn oracle table of one mask frequency: entry [i][t] = cos(2 pi (z t + i / nphases))"""
     t = np.arange(n)
     return [np.cos(TWO_PI * z * t + TWO_PI * i / nphases) for i in range(nphases)]
 
@@ -233,8 +234,10 @@ def frac_close(model_vec, impl_vec, tol):
     return True
 
 
-def gnim_op(x, masks, rows, tol, rot):
-    vecs = [vlist(x)] + [vlist(m) for m in masks]
+def gnim_op(x, z, amp, nphases, rows, tol, rot):
+    """GNIM: the model builds the masks itself (amp * cosTurn(z t + i/p)); the harness supplies only the cosine
+    values cos(2 pi (z t + i / p)) of this call (the cosTurn oracle table, keyed by sample t and phase index i)."""
+    vecs = [vlist(x)] + [vlist(u) for u in unit_masks(len(x), z, nphases)]
     for (m, arg, r, f) in rows:
         vecs += [vlist(arg), vlist(r), [1 if f else 0]]
-    return proto.op('GNIM', {'p': len(masks), 'tol': tol, 'rot': rot}, vecs)
+    return proto.op('GNIM', {'p': nphases, 'tol': tol, 'rot': rot, 'z': z, 'amp': amp}, vecs)
